@@ -87,6 +87,45 @@ SEEDS = {
  "C19d": ("C19", "uint64 fast path for whole FUND amounts", "whole amount between 18446744074 and 2^64-1 FUND"),
  "C20c": ("C20", "AddressesFromStreamKey slices the sender with the receiver's length", "same idea as C18a / C20b"),
  "C20d": ("C20", "count-only fast path taken when status or purchaser is unset (should be and)", "exactly one filter set, offset paging or count_total"),
+ # ---- third round (given the list of ideas already used; asked for orderings, sequences, cooperating edits)
+ "C01e": ("C01", "BEACON ante max-slots lookups while ranging over a map", "same idea as C01b"),
+ "C01f": ("C01", "purchase-order counter incremented in place in the slice returned by store.Get", "a transaction that raises an order and then fails: the increment stays in the store's caches of the running process, a restarted node hands out another id"),
+ "C02e": ("C02", "the coin minted is the purchaser's new total locked amount", "same idea as C02b"),
+ "C02f": ("C02", "batched mint per purchaser, purchaser appended once per order", "same idea as C02a"),
+ "C03e": ("C03", "reject branch additionally requires accepts < MinAccepts", "mixed decisions, then the signer set shrinks so that both thresholds are met: the order is accepted instead of rejected"),
+ "C03f": ("C03", "accepted order of a purchaser that left the whitelist is set to rejected", "whitelist removal before the minting block: accepted -> rejected"),
+ "C04e": ("C04", "total locked decremented by the whole fee when locked < fee", "same idea as C04a"),
+ "C04f": ("C04", "per-purchaser mint batching with a value-copy bug", "two orders of one purchaser completing in one block: only the first is minted and locked"),
+ "C05e": ("C05", "branch test replaced by IsAllGTE over the whole fee set", "same idea as C05a"),
+ "C05f": ("C05", "one unlock decorator instance per module in the ante chain", "same idea as C05b (two cooperating files)"),
+ "C06e": ("C06", "CheckIsWrkChainTx true only if every message is a WRKChain message", "a WRKChain message mixed with an unrelated one: admitted with any fee"),
+ "C06f": ("C06", "BEACON purchase slots collected per beacon id, overwriting duplicates", "two purchases for the same BEACON in one transaction"),
+ "C07e": ("C07", "lowest height in state recomputed over the module-wide iterator", "two WRKChains, the higher id prunes twice: it deletes a record inside its retention limit"),
+ "C07f": ("C07", "BEACON export lists timestamps newest first", "export/import of a BEACON with two or more timestamps, then records past the limit"),
+ "C08e": ("C08", "WRKChain record stored after the prune step", "same idea as C08a"),
+ "C08f": ("C08", "BEACON purchase check msg.Number > max - limit", "same idea as C08b"),
+ "C09e": ("C09", "BEACON owner stored in the spelling of the message", "owner spelled in upper case (legal bech32): the BEACON disappears from its owner's listing"),
+ "C09f": ("C09", "name / moniker limits counted in characters at both validation sites", "multi-byte characters: 128 two-byte characters are accepted as a 256-byte name"),
+ "C10e": ("C10", "ClaimFromStream returns early when the receiver amount is zero, after the fee left escrow", "validator fee exactly 1.0, then any release"),
+ "C10f": ("C10", "MsgCreateStream replaces an expired stream", "create, expire with deposit unclaimed, create again: the old deposit is orphaned in escrow"),
+ "C11e": ("C11", "early return on an empty claim skips the outflow-time write", "same idea as C11c"),
+ "C11f": ("C11", "SetNewFlowRate writes back the stale copy", "same idea as C11a"),
+ "C12e": ("C12", "top-up of an expired stream drops the Cancellable flag", "same idea as C12d"),
+ "C12f": ("C12", "blocked-receiver check looks the message string up in a map", "a blocked module account as receiver in upper-case spelling: every later release fails, the deposit is stranded"),
+ "C13e": ("C13", "the unlock decorator returns without calling next after a successful unlock", "fee payer with locked eFUND: signature, sequence and fee deduction are skipped, any key can sign"),
+ "C13f": ("C13", "enterprise params authority check moved from the message server into the ante handler", "MsgUpdateParams nested in an authz MsgExec whose grantee names itself as authority"),
+ "C14e": ("C14", "accepted order of a de-whitelisted purchaser set to rejected but left in the accepted queue", "whitelist removal before minting: BeginBlock panics from the next block on"),
+ "C14f": ("C14", "decisions admitted on accepted orders + decision handler re-queues the order as raised (two files)", "a second signer decides in the one block between acceptance and minting: BeginBlock panics"),
+ "C15e": ("C15", "enterprise InitGenesis adds imported spent records onto existing ones (the module is initialised twice by the app)", "an account with spent eFUND, import through the real InitChain"),
+ "C15f": ("C15", "stream InitGenesis recomputes the deposit-zero time", "a stream topped up while flowing whose deposit and top-up are not multiples of the rate"),
+ "C16e": ("C16", "BEACON purchase check msg.Number > max - limit", "same idea as C08b"),
+ "C16f": ("C16", "signer entries validated after TrimSpace", "same idea as C16a"),
+ "C17e": ("C17", "total locked decremented by the whole fee", "same idea as C04a / C17c"),
+ "C17f": ("C17", "incrementLockedUnd adds the purchaser's whole new balance to the total", "a further order of a purchaser that still holds locked eFUND"),
+ "C18e": ("C18", "AllStreamsForSender keeps keys that end with the length-prefixed sender", "a longer sender address whose tail is 0x14 + another sender"),
+ "C18f": ("C18", "block iteration over the module-wide prefix", "same idea as C07e"),
+ "C20e": ("C20", "BeaconsFiltered count-only shortcut that ignores the moniker filter", "moniker filter without owner filter, offset paging"),
+ "C20f": ("C20", "purchaser filter overwrites the status filter result", "both filters set, purchaser with orders in several states"),
 }
 
 
